@@ -223,7 +223,8 @@ def _rsa_pool(r, f, focus):
     bits = r.choice([2048, 2048, 2048, 3072, 4096]) if focus == "C07" else \
         r.choice([2048, 2048, 2048, 3072])
     pool.append(A.rsa_healthy(r, bits))
-  fams = ["shared_prime", "shared_nm1", "fermat", "short", "bad_exponent",
+  fams = ["shared_prime", "shared_nm1", "fermat", "fermat_deep", "short",
+          "bad_exponent",
           "unseeded", "keypair", "low_hamming", "bit_pattern", "roca",
           "denylisted", "triple"]
   enabled = r.sample(fams, r.randint(0 if focus == "C18" else 1, 4))
@@ -237,6 +238,8 @@ def _rsa_pool(r, f, focus):
       pool += A.rsa_shared_nm1(r, 2)
     elif fam == "fermat":
       pool.append(A.rsa_fermat(r))
+    elif fam == "fermat_deep":
+      pool.append(A.rsa_fermat_deep(r))
     elif fam == "short":
       pool.append(A.rsa_short(r))
     elif fam == "bad_exponent":
